@@ -159,4 +159,28 @@ Definition check_C20 (kind : string) (input output : J) : verdict :=
           end
     | _, _ => malformed
     end
+  else if String.eqb kind "alias" then
+    (* in = [aid, v, i, j]: the two arguments are v[..i] and v[..j] of one buffer *)
+    match input, output with
+    | JL [JI aid; jv; JI i; JI j], JB o =>
+        match jints jv with
+        | Some v =>
+            let a := firstn (Z.to_nat i) v in
+            let b := firstn (Z.to_nat j) v in
+            let '(ag, p) := judge o (if aid =? 0 then m_ordered a b else m_unordered a b) in
+            ok_verdict ag p
+        | None => malformed
+        end
+    | _, _ => malformed
+    end
+  else if String.eqb kind "zst" then
+    (* in = [aid, n, m]: n and m copies of the unit value *)
+    match input, output with
+    | JL [JI aid; JI n; JI m], JB o =>
+        let a := repeat 0 (Z.to_nat n) in
+        let b := repeat 0 (Z.to_nat m) in
+        let '(ag, p) := judge o (if aid =? 0 then m_ordered a b else m_unordered a b) in
+        ok_verdict ag p
+    | _, _ => malformed
+    end
   else malformed.
